@@ -27,6 +27,8 @@ pub fn fill_to_capacity_with_tokens(
 ) -> Result<(), anyhow::Error>
 {
 	let mut rng = rand::rng();
+	#[cfg(penne_verif)]
+	let mut rng = crate::verif::fuzzer_rng(rng);
 
 	let base_token_dist = WeightedIndex::new({
 		let mut weights = [0; 256];
@@ -271,6 +273,8 @@ pub fn fill_to_capacity_with_tokens(
 
 		add_whitespace(buffer, &mut rng);
 
+		#[cfg(penne_verif)]
+		crate::verif::choice("token");
 		let base_token = base_token_dist.sample(&mut rng) as u8;
 		let base_token = BaseToken::from_repr(base_token).unwrap();
 		match base_token
